@@ -94,7 +94,40 @@ def _exec_abstract(mask: int, reverse: bool, fail: int, frag: bool) -> bool:
     return result(ok, True)
 
 
+from harness import docgen as DG  # noqa: E402
+
+
+def _exec_pieces(pa: int, pb: int, pc: int, pd: int, sv: bool, iv: bool, wrap: int) -> bool:
+    """
+    pre: 0 <= pa < len(DG.PIECES) and pa < pb <= len(DG.PIECES) and pb <= pc <= len(DG.PIECES) and pc <= pd <= len(DG.PIECES) and 0 <= wrap <= 3
+    pre: (pb == len(DG.PIECES) or pb < pc or pc == len(DG.PIECES)) and (pc == len(DG.PIECES) or pc < pd or pd == len(DG.PIECES))
+    pre: thorough() or pd == len(DG.PIECES)
+    pre: shard_of(pa * 5 + pb)
+    post: _
+    """
+    M = DG.mask_of([concrete_int(x, 0, len(DG.PIECES)) for x in (pa, pb, pc, pd)])
+    W = concrete_int(wrap, 0, 3)
+    variables = {"s": True if sv else False, "i": True if iv else False}
+    with untraced():
+        text = DG.document(M, W)
+        schema = G.build_real_schema()
+        doc = parse(text)
+        if validate_ast(schema, doc).errors:
+            return result(True, False)
+        got_data, got_errs, msgs = real_run(schema, text, variables, G.make_data(), None)
+        exp_data, exp_errs = ref_run(text, variables, G.make_data(), None, ())
+        ok = json.dumps(got_data) == json.dumps(exp_data) and got_errs == exp_errs
+    return result(ok, True)
+
+
 CONDITIONS = [
+    Cond(
+        name="exec_pieces", fn=_exec_pieces, quick=150, thorough=900, per_path=60, shards_quick=16, shards_thorough=16,
+        bound="every ordered subset of size <= 3 (thorough <= 4) of %d selection pieces on one object (aliases of one field with different sub-depths, one named fragment spread plain / @skip / @include / at a deeper level, "
+              "inline fragments with and without type condition, both directives on one field, nested fragments) x both values of two Boolean variables x 4 ways of wrapping the selection" % len(DG.PIECES),
+        symbolic={"pa..pd": "choice: which pieces (increasing indices, 13 = none)", "sv,iv": "data: variable values", "wrap": "choice"}, assumptions=["as exec_template"],
+        witness={"pa": 5, "pb": 6, "pc": 13, "pd": 13, "sv": True, "iv": True, "wrap": 0},
+    ),
     Cond(
         name="exec_abstract", fn=_exec_abstract, quick=100, thorough=400, per_path=60, shards_quick=16, shards_thorough=16,
         bound="list of an interface type holding two object types in either order: every non-empty subset of 8 selection pieces (plain field, type-conditioned fragments on each member, on the interface, on another interface, "
